@@ -1,25 +1,15 @@
 /-
-  C17 — compact targets and proof of work.
-
-  `Model.*` mirrors bitcoin/core/serialize.py (uint256_from_compact, compact_from_uint256,
-  uint256_from_str) and bitcoin/core/__init__.py (CheckProofOfWork).
-  `Spec.*` is Bitcoin Core's arith_uint256::SetCompact / GetCompact and pow.cpp CheckProofOfWork.
+  C17 — compact targets and proof of work: `Model.*` mirrors bitcoin/core/serialize.py
+  (uint256_from_compact, compact_from_uint256, uint256_from_str) and bitcoin/core/__init__.py
+  (CheckProofOfWork).  The reference definitions are in Spec/Compact.lean.
 
   Python's `x & (2^k-1)`, `x >> k`, `x << k` on non-negative ints are written `x % 2^k`,
   `x / 2^k`, `x * 2^k`; `x & 0x00800000` (a one-bit test) is `(x / 2^23) % 2`.
   Mathlib-free (linked into btcmodel).
 -/
-import BtcVerif.Basic.Bytes
+import BtcVerif.Basic.NatBytes
 
 namespace BtcVerif
-
-/-- CPython's `int.bit_length()` for non-negative ints -/
-def bitLength (v : Nat) : Nat := if v = 0 then 0 else Nat.log2 v + 1
-
-/-- number of bytes of the minimal big-endian representation; Python `(v.bit_length()+7) >> 3`
-    (`Proofs/Compact.lean: nbytes_eq_bitlength` proves `nbytes v = (bitLength v + 7) / 8`) -/
-def nbytes (v : Nat) : Nat := if h : v = 0 then 0 else nbytes (v / 256) + 1
-decreasing_by omega
 
 namespace Model
 
@@ -62,58 +52,5 @@ def checkPoW (limit : Nat) (hash : Bytes) (nBits : Nat) : PowResult :=
       | some h => if h > target then .errPow else .ok
 
 end Model
-
-namespace Spec
-
-/-- arith_uint256::SetCompact, value (256-bit arithmetic) -/
-def compactValue (c : Nat) : Nat :=
-  let nSize := c / 2 ^ 24
-  let nWord := c % 2 ^ 23
-  if nSize ≤ 3 then nWord / 2 ^ (8 * (3 - nSize))
-  else (nWord * 2 ^ (8 * (nSize - 3))) % 2 ^ 256
-
-/-- SetCompact's `fNegative` -/
-def compactNeg (c : Nat) : Prop := c % 2 ^ 23 ≠ 0 ∧ (c / 2 ^ 23) % 2 = 1
-
-/-- SetCompact's `fOverflow` -/
-def compactOvf (c : Nat) : Prop :=
-  let nSize := c / 2 ^ 24
-  let nWord := c % 2 ^ 23
-  nWord ≠ 0 ∧ (nSize > 34 ∨ (nWord > 0xff ∧ nSize > 33) ∨ (nWord > 0xffff ∧ nSize > 32))
-
-instance : DecidablePred compactNeg := fun c => by unfold compactNeg; exact inferInstance
-instance : DecidablePred compactOvf := fun c => by unfold compactOvf; exact inferInstance
-
-/-- pow.cpp CheckProofOfWork -/
-def powValid (limit : Nat) (hash : Bytes) (nBits : Nat) : Prop :=
-  ¬ compactNeg nBits ∧ ¬ compactOvf nBits ∧ compactValue nBits ≠ 0 ∧
-    compactValue nBits ≤ limit ∧ leNat hash ≤ compactValue nBits
-
-instance (l : Nat) (h : Bytes) (b : Nat) : Decidable (powValid l h b) := by
-  unfold powValid; exact inferInstance
-
-/-- mantissa * 256^(exponent-3), floor for exponents below 3 -/
-def decodeMantExp (mant exp : Nat) : Nat :=
-  if exp ≤ 3 then mant / 256 ^ (3 - exp) else mant * 256 ^ (exp - 3)
-
-/-- "truncated to its three most significant bytes", over the sign-magnitude representation:
-    when the top byte is ≥ 0x80 a leading 00 byte is one of the three. -/
-def truncTop3 (v : Nat) : Nat :=
-  let nb := nbytes v
-  if v / 256 ^ (nb - 1) ≥ 0x80 then
-    (if nb ≤ 2 then v else (v / 256 ^ (nb - 2)) * 256 ^ (nb - 2))
-  else
-    (if nb ≤ 3 then v else (v / 256 ^ (nb - 3)) * 256 ^ (nb - 3))
-
-/-- canonical compact values: what GetCompact can produce -/
-def canonical (c : Nat) : Prop :=
-  c = 0 ∨
-  (let e := c / 2 ^ 24
-   let m := c % 2 ^ 24
-   1 ≤ e ∧ e ≤ 255 ∧ 0x8000 ≤ m ∧ m < 0x800000 ∧ m % 256 ^ (3 - e) = 0)
-
-instance : DecidablePred canonical := fun c => by unfold canonical; exact inferInstance
-
-end Spec
 
 end BtcVerif
